@@ -39,13 +39,34 @@ Definition outcome_eqb (a b : outcome) : bool :=
   | _, _ => false
   end.
 
-(* a case: the intent tree handed to the implementation and the canonicalised result it produced *)
-Definition case := (tree * outcome)%type.
+Definition ierr_eqb (a b : ierr) : bool :=
+  match a, b with
+  | IntentFailed x, IntentFailed y => x =? y
+  | TooManyReferences t l, TooManyReferences t' l' => (t =? t') && (l =? l')
+  | _, _ => false
+  end.
+Definition floc_eqb (a b : floc) : bool :=
+  match a, b with
+  | FRoot, FRoot => true
+  | FAcross, FAcross => true
+  | FNonRoot i h, FNonRoot j g => Nat.eqb i j && (h =? g)
+  | _, _ => false
+  end.
+Definition foutcome_eqb (a b : foutcome) : bool :=
+  match a, b with
+  | FStructure x, FStructure y => outcome_eqb x y
+  | FIntent l e, FIntent l' e' => floc_eqb l l' && ierr_eqb e e'
+  | _, _ => false
+  end.
+
+(* a case: the intent tree + what each intent's own validation does (stub), the two reference limits
+   of the configuration, and the canonicalised result the implementation produced *)
+Definition case := (full * foutcome)%type.
 (* The implementation's loop has no iteration bound; it is compared with the model run on generous
    fuel (theorem C35_fuel_irrelevant: fuel only matters for OutOfFuel).  Whenever the root hash is not
    the placeholder the model proper (fuel = number of subintents) must give the same result
    (that is theorem C35_worklist_terminates, re-checked here on every case). *)
 Definition big_fuel : nat := 4000.
 Definition check (c : case) : bool :=
-  outcome_eqb (validate_with big_fuel (fst c)) (snd c)
-  && (ihash_eqb (t_root_hash (fst c)) PLACEHOLDER || outcome_eqb (validate (fst c)) (snd c)).
+  foutcome_eqb (validate_full_with big_fuel (fst c)) (snd c)
+  && (ihash_eqb (t_root_hash (f_tree (fst c))) PLACEHOLDER || foutcome_eqb (validate_full (fst c)) (snd c)).
